@@ -209,6 +209,26 @@ def r2_history_index_is_state_index(ctx, rid):
             ctx.ok(rid, g, st, "history variable registered under the (var, delay) it was requested for")
         else:
             ctx.violation(rid, g, st, f"history variable registered under ({k1}, {k2}) instead of (var, delay)")
+    # the generated name is unique per (var, delay): `<var>_hist<k>` with k = number of delays already registered for THIS variable,
+    # i.e. the size of the very table the name is stored into
+    names = [st for st in walk_shallow(g.node) if isinstance(st, ast.Assign) and isinstance(st.value, ast.JoinedStr)]
+    if len(names) != 1:
+        raise AnalysisError(f"{rid}: history-variable name template not recognised in _get_var_hist")
+    tpl = names[0].value
+    holes = [v.value for v in tpl.values if isinstance(v, ast.FormattedValue)]
+    lens = [h for h in holes if isinstance(h, ast.Call) and call_name(h) == "len" and h.args]
+    var_hole = any(isinstance(h, ast.Name) and h.id == "var" for h in holes)
+    table = two_level[0].targets[0].value          # self._state_var_hist[var]
+    if not lens:
+        raise AnalysisError(f"{rid}: history-variable name has no counter component: {fstring_template(tpl)}")
+    if var_hole and ast.dump(lens[0].args[0]) == ast.dump(table):
+        ctx.ok(rid, g, names[0], "history-variable name = variable name + number of delays already registered for that variable (unique per (var, delay))",
+               {"template": fstring_template(tpl)}, label="history-variable name is unique per (var, delay)")
+    else:
+        ctx.violation(rid, g, names[0], f"the history-variable name `{fstring_template(tpl)}` is not numbered by the size of the table it is stored "
+                                        f"into ({ast.unparse(table)}): two different delays of one variable can receive the same name, so both "
+                                        f"delayed terms read the later one's history", {"template": fstring_template(tpl)},
+                      label="history-variable name is unique per (var, delay)")
     # the call site in _expr_to_str passes the variable the `past` call names
     h = ctx.repo.get_func(CG, "ComputeGraph._expr_to_str")
     gc = [c for c in walk_shallow(h.node) if isinstance(c, ast.Call) and call_name(c) == "_get_var_hist"]
@@ -302,7 +322,7 @@ def r4_history_time_units(ctx, rid):
 
 RULES = [
     ("C10-R1", r1_add_var_hist, 2),
-    ("C10-R2", r2_history_index_is_state_index, 4),
+    ("C10-R2", r2_history_index_is_state_index, 5),
     ("C10-R3", r3_solvers_feed_history, 3),
     ("C10-R4", r4_history_time_units, 6),
 ]
